@@ -234,6 +234,20 @@ func (p *nftParser) parse() (Rule, error) {
 			if t == "icmpv6" {
 				ver = 6
 			}
+			if p.peek() == "code" {
+				p.i++
+				neg := p.optNeg()
+				v, err := p.next()
+				if err != nil {
+					return r, err
+				}
+				n, err := strconv.Atoi(v)
+				if err != nil {
+					return r, p.errf("bad icmp code %q", v)
+				}
+				r.M = append(r.M, M{"k": "icmpf", "v": ver, "f": "code", "val": n, "neg": neg, "bare": false})
+				break
+			}
 			if err := p.expect("type"); err != nil {
 				return r, err
 			}
@@ -246,7 +260,9 @@ func (p *nftParser) parse() (Rule, error) {
 			if err != nil {
 				return r, p.errf("bad icmp type %q", v)
 			}
-			r.M = append(r.M, M{"k": "icmpf", "v": ver, "f": "type", "val": n, "neg": neg})
+			r.M = append(r.M, M{"k": "icmpf", "v": ver, "f": "type", "val": n, "neg": neg, "bare": false})
+			// "icmp type T code C": the second field is written without repeating the "icmp" keyword.
+			// Recorded as such ("bare"); whether nft accepts that spelling is decided in Netfilter.tla.
 			if p.peek() == "code" {
 				p.i++
 				neg := p.optNeg()
@@ -258,7 +274,7 @@ func (p *nftParser) parse() (Rule, error) {
 				if err != nil {
 					return r, p.errf("bad icmp code %q", v)
 				}
-				r.M = append(r.M, M{"k": "icmpf", "v": ver, "f": "code", "val": n, "neg": neg})
+				r.M = append(r.M, M{"k": "icmpf", "v": ver, "f": "code", "val": n, "neg": neg, "bare": true})
 			}
 		case "iifname", "oifname":
 			p.i++
